@@ -3,7 +3,10 @@ from framework import *
 FLOOR_R1 = 900        # basic blocks interpreted (about a third of what the pinned tree gives)
 
 WRITERS = ['encap', 'encap_frag', 'encap_ext']
-ENCCFG = {'decline_loop_obligations_in': {ENC + 'encap_ext'}}
+# encap_ext sums the extension lengths in one loop and spends them in another: obligations that need that relation are declined
+# in the analysis for chains of any length (also when they are only tied to the sum through what is known about the buffer
+# length) and are all decided for chains of 1, 2 and 3 extensions by c13.bounded_chain_rules
+ENCCFG = {'decline_loop_obligations_in': {ENC + 'encap_ext'}, 'decline_transitive': True}
 
 
 def self_fields(a, w):
